@@ -173,6 +173,7 @@ struct Outcome {
     checks: u64,
     /// unit driver: the generator was reset after a session with at least one loss and used again
     session_break_after_a_loss: bool,
+    break_even_fed_as_negative_zero: bool,
 }
 
 const N_INSTR: usize = 4;
@@ -203,11 +204,18 @@ fn run_unit(fills: &[Fill]) -> Result<Outcome, V> {
     let session_break = fills.len() % 3 == 1;
     let mut closed = 0usize;
     let mut lost_before_break = false;
+    let mut neg_zero = false;
     for (idx, f) in fills.iter().enumerate() {
         let tr = mk_trade(f, idx, 0u64);
         let ex = catch(|| pm.update_from_trade(&tr)).map_err(|m| ("panic_in_position_update", m))?;
         steps += 1;
-        if let Some(ex) = ex {
+        if let Some(mut ex) = ex {
+            // a break-even position's realised PnL is zero whatever its sign bit (`-(fee_enter + fee_exit)` on a
+            // zero-fee venue is -0): every second one is fed as negative zero
+            if ex.pnl_realised.is_zero() && idx % 2 == 0 {
+                ex.pnl_realised = -ex.pnl_realised;
+                neg_zero = true;
+            }
             catch(|| tear.update_from_position(&ex)).map_err(|m| ("panic_in_tear_sheet_update", format!("exit {ex:?}: {m}")))?;
             exits.push(exit_of(&ex));
             closed += 1;
@@ -233,7 +241,7 @@ fn run_unit(fills: &[Fill]) -> Result<Outcome, V> {
     }
     let sheet = catch(|| tear.generate(Decimal::ZERO, Daily)).map_err(|m| ("panic_in_tear_sheet_generate", m))?;
     let checks = judge_sheet(if session_break && closed >= 3 { "TearSheetGenerator (second session, after reset)" } else { "TearSheetGenerator" }, &sheet, &exits)?;
-    Ok(Outcome { exits_per_instr: vec![exits], sheets: vec![sheet_json(&sheet)], steps, checks, session_break_after_a_loss: lost_before_break })
+    Ok(Outcome { exits_per_instr: vec![exits], sheets: vec![sheet_json(&sheet)], steps, checks, session_break_after_a_loss: lost_before_break, break_even_fed_as_negative_zero: neg_zero })
 }
 
 /// Driver (ii): engine, fills spread over 4 instruments on 2 exchanges, plus balance snapshots.
@@ -347,7 +355,7 @@ fn run_engine(fills: &[Fill]) -> Result<Outcome, V> {
             return Err(("maintained_trading_summary_entry_reflects_another_history", format!("asset {a} {key:?}: balance_end={got:?} expected {:?}", last_balance[a])));
         }
     }
-    Ok(Outcome { exits_per_instr: exits, sheets, steps, checks, session_break_after_a_loss: false })
+    Ok(Outcome { exits_per_instr: exits, sheets, steps, checks, session_break_after_a_loss: false, break_even_fed_as_negative_zero: false })
 }
 
 fn gen_fills(rng: &mut Rng, n_instr: usize) -> Vec<Fill> {
@@ -412,6 +420,9 @@ fn execute(fills: &[Fill], engine: bool, report: &mut Report, log: &LogSink) {
         Ok(out) => {
             report.events_observed += out.steps;
             report.oracle_checks += out.checks;
+            if out.break_even_fed_as_negative_zero {
+                report.cover("break_even_position_fed_as_negative_zero");
+            }
             if out.session_break_after_a_loss {
                 report.cover("generator_reset_after_a_session_with_a_loss_and_used_again");
             }
@@ -500,7 +511,7 @@ fn main() {
     });
     log.flush();
     if args.tier != "miri" {
-        for c in ["no_closed_positions", "only_wins", "only_losses", "wins_and_losses", "exact_break_even", "engine_trading_summary", "several_instruments_with_history", "tear_sheet_generator_direct", "generator_reset_after_a_session_with_a_loss_and_used_again"] {
+        for c in ["no_closed_positions", "only_wins", "only_losses", "wins_and_losses", "exact_break_even", "engine_trading_summary", "several_instruments_with_history", "tear_sheet_generator_direct", "generator_reset_after_a_session_with_a_loss_and_used_again", "break_even_position_fed_as_negative_zero"] {
             report.require(c);
         }
     }
